@@ -1,4 +1,7 @@
 import Heathcliff.Proofs.C02X
+import Heathcliff.Proofs.C02S
+import Heathcliff.Proofs.C02SB
+import Heathcliff.Proofs.GenEvalSq
 import Heathcliff.Proofs.C02W
 import Heathcliff.Proofs.C02V
 import Heathcliff.Proofs.C02K
@@ -171,6 +174,56 @@ theorem bgvDecode_balanced_poly : type_of% @HC.bgvDecode_balanced_poly := @HC.bg
 /-- `CtCanon` is what the model's validator `ctValid` (`Ciphertext::is_valid_for`) establishes for a non-empty ciphertext -/
 theorem CtCanon_of_ctValid : type_of% @HC.CtCanon.of_ctValid := @HC.CtCanon.of_ctValid
 
+
+/-! ### squaring: the model's OWN squaring routines (`bgvSquare`, `ckksSquare`: size-2 fast path `c0², c0·c1 + c0·c1, c1²`, fallback to the
+    product routine for every other size — mirrors of `bgv_square` / `ckks_square`, which the driver now runs for `ct_op square`) are the
+    products of the ciphertext with itself; every `_spec` / `_phase` theorem of the product transfers (Heathcliff/Proofs/C02S.lean) -/
+
+/-- S1 (BGV): `bgvSquare l x = bgvMultiply l x x` for EVERY canonical ciphertext `x` (sizes 2..16, either representation; refusals
+    included: coefficient form, result size 2n − 1 > 16).  Hypotheses: the moduli are well-formed word moduli (`c02v_QsWF`: what
+    `Modulus::new` builds — Barrett reduction is exact), the ciphertext is canonical (`CtCanon`: what `is_valid_for` establishes) — needed
+    because the fast path computes `c0·c1 + c0·c1` where the product routine computes `(0 + c0·c1) + c1·c0`: the two agree as VALUES only
+    on reduced residues and equal component lengths. -/
+theorem bgvSquare_eq : type_of% @HC.bgvSquare_eq := @HC.bgvSquare_eq
+
+/-- S1 (CKKS / dyadic part): `ckksSquare l x = ctMultiplyDyadic l x x` for every canonical ciphertext -/
+theorem ckksSquare_eq : type_of% @HC.ckksSquare_eq := @HC.ckksSquare_eq
+
+/-- S2 residues: the square of a canonical NTT-form ciphertext of size n ≤ 8 succeeds, has 2n − 1 canonical polynomials, and residue
+    (i, j) of polynomial k is Σ_{x + y = k} a_x[i][j] · a_y[i][j] mod q_i -/
+theorem ckksSquare_spec : type_of% @HC.ckksSquare_spec := @HC.ckksSquare_spec
+
+/-- S2 phase: phase(square x) = phase(x)² in every commutative ring in which `q_i = 0`, for every secret -/
+theorem ckksSquare_phase : type_of% @HC.ckksSquare_phase := @HC.ckksSquare_phase
+
+/-- S2 (BGV): success on canonical BGV ciphertexts of size ≤ 8 with unit factor; result canonical, factor cf² mod t (a unit), polynomial
+    part = the dyadic square -/
+theorem bgvSquare_spec : type_of% @HC.bgvSquare_spec := @HC.bgvSquare_spec
+
+theorem bgvSquare_phase : type_of% @HC.bgvSquare_phase := @HC.bgvSquare_phase
+
+theorem bgvSquare_cf : type_of% @HC.bgvSquare_cf := @HC.bgvSquare_cf
+
+/-- refusals: coefficient form; more than 8 polynomials (result size > 16), whatever the data are -/
+theorem bgvSquare_refuse : type_of% @HC.bgvSquare_refuse := @HC.bgvSquare_refuse
+theorem bgvSquare_refuse_size : type_of% @HC.bgvSquare_refuse_size := @HC.bgvSquare_refuse_size
+theorem ckksSquare_refuse : type_of% @HC.ckksSquare_refuse := @HC.ckksSquare_refuse
+theorem ckksSquare_refuse_size : type_of% @HC.ckksSquare_refuse_size := @HC.ckksSquare_refuse_size
+
+/-- S1 (BFV): `bfvSquare l T x = bfvMultiply l T x x` — the model of `bfv_square` (BEHZ with the size-2 fast path `c0², c0·c1 + c0·c1, c1²`
+    in base q and base Bsk) is the BEHZ product of the ciphertext with itself, for every ciphertext with canonical polynomials at a level
+    satisfying `MulOK` (any size, refusals included) -/
+theorem bfvSquare_eq : type_of% @HC.bfvSquare_eq := @HC.bfvSquare_eq
+
+/-- S2 (BFV): totality, shape, canonicity and closed form of the square for n ≤ 8 polynomials -/
+theorem bfvSquare_ok : type_of% @HC.bfvSquare_ok := @HC.bfvSquare_ok
+
+theorem bfvSquare_refuse_ntt : type_of% @HC.bfvSquare_refuse_ntt := @HC.bfvSquare_refuse_ntt
+theorem bfvSquare_refuse_size : type_of% @HC.bfvSquare_refuse_size := @HC.bfvSquare_refuse_size
+
+/-- non-vacuity: the fast path (size 2 → 3, factor 2·2 mod 5 = 4) and the fallback (size 3 → 5) on the example BGV level -/
+theorem bgvSquare_witness_fast : type_of% @HC.c02s_witness_fast := @HC.c02s_witness_fast
+theorem bgvSquare_witness_fallback : type_of% @HC.c02s_witness_fallback := @HC.c02s_witness_fallback
 
 /-! ### BEHZ `bfvMultiply` of the model end to end: totality and shape for all sizes, exact integer semantics per coefficient (one alpha < |q| per coefficient), ring-level phase identity; constants derived from RNSTool.new
     (statements, hypothesis bundles and non-vacuity instances: Heathcliff/Proofs/C02W.lean, section "Property theorems") -/
@@ -651,5 +704,46 @@ theorem relinOK_example : type_of% @HC.c02p_rRelinOK := @HC.c02p_rRelinOK
 theorem keyLevelOf_example : type_of% @HC.c02p_rKeyLevelOf := @HC.c02p_rKeyLevelOf
 theorem hom_program_bgv_relin_example : type_of% @HC.hom_program_bgv_relin_example := @HC.hom_program_bgv_relin_example
 theorem hom_program_bgv_relin_example_val : type_of% @HC.hom_program_bgv_relin_example_val := @HC.hom_program_bgv_relin_example_val
+/-! ### translator tie (task S): the DATA of `Evaluator::bgv_square` (src/evaluator.rs), generated over the flat ciphertext buffer into
+     Gen/EvalCtFns.lean (`GenC.ct_bgv_square`; tables tools/rs2lean_sq.py), = `bgvSquare` of the model (Proofs/GenEvalSq.lean).  Together with
+     `bgvSquare_eq` above: the code's squaring routine computes the product of the ciphertext with itself. -/
+
+/-- `dyadic_product_p(poly1, poly2, degree, moduli, result)` on the flat layout = `rnsDyadic` on `unflattenRns` (the out-of-place wrapper the
+    squaring and multiplication routines call; generated since phase 4b', no equality until now) -/
+theorem gen_poly_dyadic_product_p_model : type_of% @HC.gs_poly_dyadic_product_p_model := @HC.gs_poly_dyadic_product_p_model
+
+/-- dispatch: coefficient form is refused, every size but 2 goes to `bgv_multiply(x, &x.clone())` (route 1, nothing touched) -/
+theorem gen_ct_bgv_square_dispatch : type_of% @HC.gs_bgv_square_dispatch := @HC.gs_bgv_square_dispatch
+
+/-- … and so does the model, by definition -/
+theorem bgvSquare_fallback : type_of% @HC.bgvSquare_fallback := @HC.bgvSquare_fallback
+
+/-- GENERATED = MODEL, fast path (size 2, NTT form): buffer, size 3, factor cf·cf mod t - successes and arithmetic traps alike.
+    Hypotheses: the buffer holds two polynomials of `l.size` components of `l.n` words, at least one modulus (`3·n·k` is computed as
+    `(3·n)·k`), and the resized buffer is addressable (`3·k·n < 2^64`) -/
+theorem gen_ct_bgv_square_eq : type_of% @HC.gs_bgv_square_eq := @HC.gs_bgv_square_eq
+
+/-- non-vacuity: the example BGV level (two moduli 17, n = 2, t = 5), a size-2 buffer of eight words, factor 2 -/
+example : HC.GenC.ct_bgv_square (List.replicate 8 3) 2 2 true HC.c02v_exLevel.qs.toList HC.c02v_exLevel.t HC.c02v_exLevel.n =
+    Except.map (fun c => (HC.flattenCt HC.c02v_exLevel c, 3, c.cf, 0))
+      (HC.bgvSquare HC.c02v_exLevel (HC.unflattenCt HC.c02v_exLevel 2 (List.replicate 8 3) true 2)) :=
+  HC.gs_bgv_square_eq HC.c02v_exLevel _ 2 (by decide) (by decide) (by decide)
+
+/-- GENERATED = MODEL (`bgv_multiply`, DATA LOOPS: resize, `for i in 0..dest_size { for j in 0..steps { dyadic_product_p; add_inplace_p } }`, copy back, factor
+    product; generated as `GenC.ct_bgv_multiply` over the flat buffers): for NTT-form operands of ANY sizes s1, s2 ≥ 1 = the flattened `bgvMultiply` of the
+    model, size s1 + s2 − 1, the model's factor — the `resize` refusal and every arithmetic trap included (same order of operations on both sides).
+    Hypotheses: buffer lengths = size·(l.size·l.n), at least one modulus, the product buffer addressable (`(s1+s2−1)·k·n < 2^64`), `s1 + s2 < 2^64`. -/
+theorem gen_ct_bgv_multiply_eq : type_of% @HC.gs_bgv_multiply_eq := @HC.gs_bgv_multiply_eq
+
+/-- GENERATED = MODEL (`bgv_square`, EVERY size ≥ 1, both representations): the generated dispatch / fast path, the fallback route resolved by the generated
+    `bgv_multiply` on the ciphertext and its clone (`gs_bgv_square_run`), = the flattened `bgvSquare`, size 2s − 1, the model's factor.  Composed with
+    `bgvSquare_eq` and `ctMultiplyDyadic_phase`: what the code's `bgv_square` returns has phase(x)². -/
+theorem gen_ct_bgv_square_all : type_of% @HC.gs_bgv_square_run_eq := @HC.gs_bgv_square_run_eq
+
+/-- non-vacuity: size 3 (fallback route) on the example BGV level -/
+example : HC.gs_bgv_square_run (List.replicate 12 3) 3 2 true HC.c02v_exLevel.qs.toList HC.c02v_exLevel.t HC.c02v_exLevel.n =
+    Except.map (fun c => (HC.flattenCt HC.c02v_exLevel c, 5, c.cf))
+      (HC.bgvSquare HC.c02v_exLevel (HC.unflattenCt HC.c02v_exLevel 3 (List.replicate 12 3) true 2)) :=
+  HC.gs_bgv_square_run_eq HC.c02v_exLevel _ 3 2 true (by decide) (by decide) (by decide) (by decide) (by decide)
 
 end HC.C02
